@@ -555,12 +555,18 @@ theorem sep_headIn32 {stop : Cps} (h : Sep stop) : HeadIn (fun c => inR [(32, 32
   · left; rfl
   · right; exact ⟨32, rest, rfl, by decide⟩
 
-theorem ident_first (c : Nat) (cs stop : Cps) (hc : inR identStart c = true)
+/-- first code point of an identifier where `u`/`U` need not be excluded (after `@`) -/
+def nameStart : List (Nat × Nat) := [(65, 90), (95, 95), (97, 122)]
+
+theorem ident_first_gen (st : List (Nat × Nat)) (hst1 : exactlyOne st nmstartRe = true)
+    (hst2 : clsFails false [(45, 45)] st = true) (c : Nat) (cs stop : Cps) (hc : inR st c = true)
     (hcs : ∀ x ∈ cs, inR identRest x = true) (hs : Sep stop) :
     reIDENT.first (c :: cs ++ stop) = some (c :: cs).length := by
   have hc45 : c ≠ 45 := by
-    intro e; subst e; revert hc; decide
-  have h1 : nmstartRe.ms (c :: (cs ++ stop)) = [1] := exactlyOne_sound identStart c hc nmstartRe (by decide) _
+    intro e
+    have := clsFails_sound false _ st c hst2 hc
+    rw [e] at this; revert this; decide
+  have h1 : nmstartRe.ms (c :: (cs ++ stop)) = [1] := exactlyOne_sound st c hc nmstartRe hst1 _
   have hstar : (Re.star nmcharRe true).ms (cs ++ stop) = countdown cs.length := by
     show Re.starMs nmcharRe.ms true ((cs ++ stop).length + 1) (cs ++ stop) = _
     apply starMs_run nmcharRe.ms (fun x => inR identRest x)
@@ -578,6 +584,11 @@ theorem ident_first (c : Nat) (cs stop : Cps) (hc : inR identStart c = true)
   rw [hstar, List.head?_map, head_countdown]
   simp only [Option.map_some, List.length_cons]
   congr 1; omega
+
+theorem ident_first (c : Nat) (cs stop : Cps) (hc : inR identStart c = true)
+    (hcs : ∀ x ∈ cs, inR identRest x = true) (hs : Sep stop) :
+    reIDENT.first (c :: cs ++ stop) = some (c :: cs).length :=
+  ident_first_gen identStart (by decide) (by decide) c cs stop hc hcs hs
 
 /-- **IDENT class**: a plain identifier (first code point a letter other than u/U or `_`; then letters, digits,
 `-`, `_`) followed by the end of the text or a space is scanned as one IDENT token covering exactly the identifier. -/
@@ -744,9 +755,9 @@ theorem valueOf_ident (s found : Cps) (h : ∀ c ∈ found, c ≠ 92) :
 theorem loop_step (doC : Bool) (fuel : Nat) (w stop : Cps) (line col : Nat) (name : String)
     (hw : w ≠ []) (hfast : ∀ c t, w = c :: t → fastChars.contains c = false)
     (hscan : scan false doC (w ++ stop) productions = .hit name w.length)
-    (hval : valueOf (w ++ stop) name w = some ⟨name, w, w⟩) (hnc : (name != "COMMENT") = true) :
+    (name' : String) (hval : valueOf (w ++ stop) name w = some ⟨name', w, w⟩) (hnc : (name' != "COMMENT") = true) :
     ∃ line' col', loop false doC (fuel + 1) (w ++ stop) line col =
-      Res.cons ⟨name, w, line, col, w, w, true⟩ (loop false doC fuel stop line' col') := by
+      Res.cons ⟨name', w, line, col, w, w, true⟩ (loop false doC fuel stop line' col') := by
   cases w with
   | nil => exact absurd rfl hw
   | cons c t =>
@@ -761,6 +772,77 @@ theorem loop_step (doC : Bool) (fuel : Nat) (w stop : Cps) (line col : Nat) (nam
     simp only [hf, Bool.false_eq_true, if_false, hscan, complete_false, htake, hval, hdrop]
     simp [hnc]
 
+/-! ## ATKEYWORD class (plain and reserved at-keywords) -/
+
+theorem inR_eq_inCls (cs : List (Nat × Nat)) (c : Nat) : inR cs c = Re.inCls false cs c := by
+  simp [inR, Re.inCls]
+
+theorem reATKEYWORD_eq : reATKEYWORD = Re.seq (Re.cls false [(64, 64)]) reIDENT := by decide
+
+/-- **ATKEYWORD class** (scan): `@` followed by a plain identifier -/
+theorem scan_atkeyword (doC : Bool) (c : Nat) (cs stop : Cps) (hc : inR nameStart c = true)
+    (hcs : ∀ x ∈ cs, inR identRest x = true) (hs : Sep stop) :
+    scan false doC (64 :: c :: cs ++ stop) productions = .hit "ATKEYWORD" (64 :: c :: cs).length := by
+  have hsplit : productions = productions.take 12 ++ (("ATKEYWORD", reATKEYWORD) :: productions.drop 13) := by decide
+  rw [hsplit, List.cons_append, scan_false_reject (cs := [(64, 64)]) (by decide) _ _ _ (by decide)]
+  apply scan_false_hit
+  · rw [reATKEYWORD_eq, first_seq_cls_cons]
+    have h64 : Re.inCls false [(64, 64)] 64 = true := by decide
+    simp only [h64, if_true]
+    have := ident_first_gen nameStart (by decide) (by decide) c cs stop hc hcs hs
+    rw [List.cons_append] at this
+    rw [List.cons_append, this]
+    simp only [Option.map_some, List.length_cons]
+    congr 1; omega
+  · simp [identContinue]
+
+/-- code points of a plain at-keyword: `@`, letters, digits, `-`, `_` -/
+def atChars : List (Nat × Nat) := [(45, 45), (48, 57), (64, 90), (95, 95), (97, 122)]
+
+theorem subGo_id (r : Re) (f : Cps → Option Cps) (cs : List (Nat × Nat)) (hns : noStart cs r = true) :
+    ∀ (s : Cps), (∀ x ∈ s, inR cs x = true) → subGo r f s 0 = some s := by
+  intro s
+  induction s with
+  | nil => intro _; rfl
+  | cons c t ih =>
+    intro h
+    have hc := h c (by simp)
+    simp only [subGo, first_none_of_noStart hns hc t, ih (fun x hx => h x (List.mem_cons_of_mem _ hx))]
+    rfl
+
+theorem normalizeU_plain (s : Cps) (hs : ∀ x ∈ s, inR atChars x = true) (hne : s ≠ []) :
+    normalizeU s = some (pyLower s) := by
+  have h92 : ∀ x ∈ s, x ≠ 92 := by
+    intro x hx e; have := hs x hx; rw [e] at this; revert this; decide
+  have hemp : s.isEmpty = false := by cases s <;> simp_all
+  simp only [normalizeU, subU_eq_unescape, unescape_id s h92, normalize, hemp, Bool.false_eq_true, if_false,
+    subGo_id simpleescapesRe _ atChars (by decide) s hs, Option.map_some]
+
+/-- the type the tokenizer gives to the at-keyword spelled `w` (case-insensitive lookup in the generated table) -/
+def atType (w : Cps) : String :=
+  match atkeywords.lookup (pyLower w) with
+  | some sym => sym
+  | none => "ATKEYWORD"
+
+theorem valueOf_atkeyword (s w : Cps) (hw : ∀ x ∈ w, inR atChars x = true) (hne : w ≠ [])
+    (hcs : w ≠ charsetKw) : valueOf s "ATKEYWORD" w = some ⟨atType w, w, w⟩ := by
+  have h1 : unescTypes.contains "ATKEYWORD" = false := by decide
+  have h2 : ("ATKEYWORD" == "ATKEYWORD") = true := by decide
+  have h3 : (w == charsetKw) = false := by simpa using hcs
+  simp only [valueOf, h1, h2, Bool.false_eq_true, if_false, if_true, normalizeU_plain w hw hne, atType]
+  cases atkeywords.lookup (pyLower w) with
+  | some sym => rfl
+  | none => simp [h3]
+
+theorem atType_not_comment (w : Cps) : (atType w != "COMMENT") = true := by
+  unfold atType
+  cases h : atkeywords.lookup (pyLower w) with
+  | none => decide
+  | some sym =>
+    have hm := lookup_mem _ _ _ h
+    have : ∀ p ∈ atkeywords, (p.2 != "COMMENT") = true := by decide
+    exact this _ hm
+
 /-! ## grammar tokens with plain lexemes (the classes covered by T5.6) -/
 
 inductive Lex where
@@ -771,6 +853,7 @@ inductive Lex where
   | pct (d : Nat) (ds : Cps)                       -- PERCENTAGE: ASCII digits, `%`
   | dim (d : Nat) (ds : Cps) (c : Nat) (cs : Cps)  -- DIMENSION: ASCII digits, plain identifier
   | hash (n : Nat) (ns : Cps)                      -- HASH: `#`, name code points
+  | atkw (c : Nat) (cs : Cps)                      -- ATKEYWORD or a reserved at-rule symbol: `@`, plain identifier
 
 def Lex.text : Lex → Cps
   | .num d ds => d :: ds
@@ -780,6 +863,7 @@ def Lex.text : Lex → Cps
   | .pct d ds => d :: ds ++ [37]
   | .dim d ds c cs => d :: ds ++ c :: cs
   | .hash n ns => 35 :: n :: ns
+  | .atkw c cs => 64 :: c :: cs
 
 def Lex.typ : Lex → String
   | .num _ _ => "NUMBER"
@@ -789,6 +873,7 @@ def Lex.typ : Lex → String
   | .pct _ _ => "PERCENTAGE"
   | .dim _ _ _ _ => "DIMENSION"
   | .hash _ _ => "HASH"
+  | .atkw c cs => atType (64 :: c :: cs)
 
 /-- well-formed lexemes: escape-free spellings of the class -/
 def Lex.WF : Lex → Prop
@@ -799,6 +884,7 @@ def Lex.WF : Lex → Prop
   | .pct d ds => ∀ c ∈ d :: ds, isDigit c = true
   | .dim d ds c cs => (∀ x ∈ d :: ds, isDigit x = true) ∧ inR identStart c = true ∧ ∀ x ∈ cs, inR identRest x = true
   | .hash n ns => inR identRest n = true ∧ ∀ x ∈ ns, inR identRest x = true
+  | .atkw c cs => inR nameStart c = true ∧ (∀ x ∈ cs, inR identRest x = true) ∧ 64 :: c :: cs ≠ charsetKw
 
 /-- the lexemes joined by single spaces -/
 def render : List Lex → Cps
@@ -814,8 +900,8 @@ def expected : List Lex → List (String × Cps)
 
 def proj (it : Item) : String × Cps := (it.typ, it.value)
 
-/-- first code points of well-formed lexemes: not white space, not `@`, not a BOM code point -/
-def lexHeads : List (Nat × Nat) := [(33, 63), (65, 127)]
+/-- first code points of well-formed lexemes: not white space, not a BOM code point -/
+def lexHeads : List (Nat × Nat) := [(33, 127)]
 
 theorem lex_head (t : Lex) (h : t.WF) : ∃ c w, t.text = c :: w ∧ inR lexHeads c = true := by
   cases t with
@@ -851,6 +937,7 @@ theorem lex_head (t : Lex) (h : t.WF) : ∃ c w, t.text = c :: w ∧ inR lexHead
     simp only [isDigit, Bool.and_eq_true, decide_eq_true_eq] at this
     simp [inR, lexHeads]; omega
   | hash n ns => exact ⟨35, n :: ns, rfl, by decide⟩
+  | atkw c cs => exact ⟨64, c :: cs, rfl, by decide⟩
 
 theorem render_head (t : Lex) (ts : List Lex) (h : t.WF) :
     ∃ c w, render (t :: ts) = c :: w ∧ inR lexHeads c = true := by
@@ -880,7 +967,7 @@ theorem lex_step (doC : Bool) (t : Lex) (h : t.WF) (stop : Cps) (hs : Sep stop) 
       exact not_fast_of_ranges [(48, 57)] (by decide) _ hd0
     · exact scan_number doC d ds stop h hs
     · exact valueOf_plain _ _ _ (by decide) (by decide)
-    · decide
+    · rfl
   | ident c cs =>
     apply loop_step doC fuel (c :: cs) stop line col "IDENT" (by simp)
     · intro c' t e; simp only [List.cons.injEq] at e; obtain ⟨rfl, _⟩ := e
@@ -894,7 +981,7 @@ theorem lex_step (doC : Bool) (t : Lex) (h : t.WF) (stop : Cps) (hs : Sep stop) 
         · exact Or.inl (h.2 x hx)
       intro e; subst e
       rcases hx' with hx' | hx' <;> revert hx' <;> decide
-    · decide
+    · rfl
   | fixed name w k =>
     have hmem : (name, w, k) ∈ fixedLexemes := h
     obtain ⟨_, _, hname, hne⟩ := fixedLexemes_ok _ hmem
@@ -915,7 +1002,7 @@ theorem lex_step (doC : Bool) (t : Lex) (h : t.WF) (stop : Cps) (hs : Sep stop) 
     · have := scan_percentage doC d ds stop h
       simpa [List.append_assoc] using this
     · exact valueOf_plain _ _ _ (by decide) (by decide)
-    · decide
+    · rfl
   | dim d ds c cs =>
     have hd0 : inR [(48, 57)] d = true := by
       have := h.1 d (by simp); simpa [inR, isDigit] using this
@@ -940,7 +1027,7 @@ theorem lex_step (doC : Bool) (t : Lex) (h : t.WF) (stop : Cps) (hs : Sep stop) 
       · rcases List.mem_cons.mp hx' with e1 | hx'
         · have := h.2.1; rw [← e1, e] at this; revert this; decide
         · have := h.2.2 _ hx'; rw [e] at this; revert this; decide
-    · decide
+    · rfl
   | hash n ns =>
     apply loop_step doC fuel (35 :: n :: ns) stop line col "HASH" (by simp)
     · intro c t e; simp only [List.cons.injEq] at e; obtain ⟨rfl, _⟩ := e; decide
@@ -952,7 +1039,20 @@ theorem lex_step (doC : Bool) (t : Lex) (h : t.WF) (stop : Cps) (hs : Sep stop) 
       · rcases List.mem_cons.mp hx with e1 | hx
         · have := h.1; rw [← e1, e] at this; revert this; decide
         · have := h.2 _ hx; rw [e] at this; revert this; decide
-    · decide
+    · rfl
+  | atkw c cs =>
+    have hall : ∀ x ∈ 64 :: c :: cs, inR atChars x = true := by
+      intro x hx
+      rcases List.mem_cons.mp hx with e | hx
+      · rw [e]; decide
+      · rcases List.mem_cons.mp hx with e | hx
+        · rw [e, inR_eq_inCls]; exact clsContains_sound false atChars nameStart c (by decide) h.1
+        · rw [inR_eq_inCls]; exact clsContains_sound false atChars identRest x (by decide) (h.2.1 x hx)
+    apply loop_step doC fuel (64 :: c :: cs) stop line col "ATKEYWORD" (by simp)
+    · intro c' t e; simp only [List.cons.injEq] at e; obtain ⟨rfl, _⟩ := e; decide
+    · exact scan_atkeyword doC c cs stop h.1 h.2.1 hs
+    · exact valueOf_atkeyword _ _ hall (by simp) h.2.2
+    · exact atType_not_comment _
   | fast c =>
     have hc : fastChars.contains c = true := h
     refine ⟨line, col + 1, ?_⟩
@@ -970,7 +1070,7 @@ theorem space_step (doC : Bool) (next : Cps) (hn : HeadIn (fun c => inR lexHeads
       Res.cons ⟨"S", [32], line, col, [32], [32], true⟩ (loop false doC fuel next line' col') := by
   have := loop_step doC fuel [32] next line col "S" (by simp)
     (by intro c t e; simp only [List.cons.injEq] at e; obtain ⟨rfl, _⟩ := e; decide)
-    (scan_space doC next (headIn_mono hn nonws_of_lexHead))
+    (scan_space doC next (headIn_mono hn nonws_of_lexHead)) "S"
     (valueOf_plain _ _ _ (by decide) (by decide)) (by decide)
   simpa using this
 
@@ -1022,18 +1122,13 @@ theorem render_start (ts : List Lex) (h : ∀ t ∈ ts, t.WF) :
     obtain ⟨c, w, hw, hc⟩ := render_head t us (h t (by simp))
     right; exact ⟨c, w, hw, hc⟩
 
-theorem tokenize_lexemes (doC : Bool) (ts : List Lex) (h : ∀ t ∈ ts, t.WF) :
+theorem tokenize_lexemes (doC : Bool) (ts : List Lex) (h : ∀ t ∈ ts, t.WF)
+    (hcs : hasAt (render ts) charsetStart = false) :
     (tokenize (render ts) false doC).tokens.map proj = expected ts := by
   have hstart := render_start ts h
   have hbom : bomRe.first (render ts) = none := by
     apply first_none_of_ms_nil
     exact ms_nil_of_headIn (cs := lexHeads) (by decide) (by decide) hstart
-  have hcs : hasAt (render ts) charsetStart = false := by
-    rcases hstart with he | ⟨c, w, hw, hc⟩
-    · rw [he]; decide
-    · rw [hw]
-      have hne : c ≠ 64 := by intro e; subst e; revert hc; decide
-      simp [hasAt, charsetStart, hne]
   have hab : afterBom (render ts) = render ts := by simp [afterBom, hbom]
   have hbi : bomItems (render ts) = [] := by simp [bomItems, hbom]
   have hac : afterCharset (render ts) = render ts := by simp [afterCharset, hcs]
